@@ -36,10 +36,22 @@ NSD = [False, True]
 
 
 def configure(cfg):
+    CFG["fixed"] = {}
+    CFG["lims"] = {}
     CFG.update(cfg)
 
 
+def _with_fixed(kw):
+    fx = CFG.get("fixed") or {}
+    if not fx:
+        return kw
+    d = dict(fx)
+    d.update(kw)
+    return d
+
+
 def _items(kw):
+    kw = _with_fixed(kw)
     out = []
     for j in range(CFG["n"]):
         k = KS[pick(kw["k%d" % j], len(KS))] if ("k%d" % j) in kw else str(j + 1)
@@ -90,6 +102,7 @@ def pre_doc(fn, **kw):
 
 
 def _doc(kw):
+    kw = _with_fixed(kw)
     items = []
     for j in range(CFG["n"]):
         k = KS[pick(kw["k%d" % j], len(KS))] if ("k%d" % j) in kw else str(j + 1)
@@ -225,8 +238,11 @@ def obligations(tier, seed):
             args += [["k%d" % j, "int"], ["r%d" % j, "int"], ["c%d" % j, "int"]]
         for thin in ((True,) if quick else (True, False)):
             for fn, label in (("h_lazy", "errors"), ("h_lazy_decode", "decode")):
-                out.append({"name": "%s/lazy1/n%d/%s" % (label, n, "thin" if thin else "full"), "fn": fn, "pre": "pre_doc", "args": args,
-                            "config": {"n": n, "lazy": 1, "thin": thin, "lims": {"r1": 2, "c1": 3, "c0": 3} if (quick and n == 2) else {}},
+              for k0 in (range(len(KS)) if n >= 2 else (None,)):
+                out.append({"name": "%s/lazy1/n%d/%s%s" % (label, n, "thin" if thin else "full", "" if k0 is None else "/k0=%d" % k0), "fn": fn, "pre": "pre_doc",
+                            "args": [a for a in args if k0 is None or a[0] != "k0"],
+                            "config": {"n": n, "lazy": 1, "thin": thin, "lims": {"r1": 2, "c1": 3, "c0": 3} if (quick and n == 2) else {},
+                                       "fixed": {} if k0 is None else {"k0": k0}},
                             "timeout": 900 if quick else 3000, "twin_timeout": 40,
                             "bound": "%d items: key from %r, keyref from %r, children %r" % (n, KS, REFS, CH)})
         args2 = []
